@@ -107,6 +107,8 @@ def run(ctx):
             "bfs(start_states, 2 states)": (lambda c: [fresh().bfs(start_states=c).layer_sizes], None),
             "encode_states": (lambda c: fresh().encode_states(c), None),
             "apply_path": (lambda c: fresh().apply_path(c, path), None),
+            "apply_path(empty path)": (lambda c: fresh().apply_path(c, []), None),
+            "apply_path(empty path, 1 state)": (lambda c: fresh().apply_path(c, []), True),
             "find_path_to": (lambda c: fresh().find_path_to(c, ball), True),
             "beam_search(start_state)": (lambda c: (lambda r: [r.path_found, r.path_length])(fresh().beam_search(start_state=c, beam_width=10**6, max_steps=8)), True),
             "beam_search(advanced)": (lambda c: (lambda r: [r.path_found, r.path_length])(fresh().beam_search(start_state=c, beam_mode="advanced", beam_width=10**6, max_steps=8)), True),
@@ -123,7 +125,7 @@ def run(ctx):
             entry_points["find_path_from"] = (lambda c: fresh().find_path_from(c, ball), True)
             entry_points["MITM.find_path_from"] = (lambda c: MeetInTheMiddle.find_path_from(fresh(), c, ball), True)
         for ep, (fn, single) in entry_points.items():
-            batch = two if single is None and "2 states" in ep or (single is None and ep in ("encode_states", "apply_path", "MITM.find_path_between(start)")) else one
+            batch = two if single is None and "2 states" in ep or (single is None and ep in ("encode_states", "apply_path", "apply_path(empty path)", "MITM.find_path_between(start)")) else one
             cs = containers(np, torch, batch, mshape, single=(len(batch) == 1))
             base = safe(lambda: fn(cs[0][1]))
             for label, obj in cs:
